@@ -8,6 +8,7 @@ trap 'rm -rf "$work"' EXIT
 rsync -a --exclude .git /repo/ "$work/base/"
 n=0
 for d in "$@"; do
+  d=$(cd "$d" && pwd)
   for p in "$d"/p*.diff "$d"/patch.diff; do
     [ -f "$p" ] || continue
     name=$(basename "$(dirname "$(dirname "$p")")")-$(basename "$p" .diff)
